@@ -438,21 +438,30 @@ impl AddAssign<Duration> for Epoch {
 /// Equality only checks the duration since J1900 match in TAI, because this is how all of the epochs are referenced.
 impl PartialEq for Epoch {
     fn eq(&self, other: &Self) -> bool {
+        // NOTE: Durations of opposite signs compare as equal (cf. Duration), but two epochs on either side
+        // of their reference epoch are different instants, hence the use of the total ordering here.
         if self.time_scale == other.time_scale {
-            self.duration == other.duration
+            self.duration.cmp(&other.duration) == Ordering::Equal
         } else {
             // If one of the two time scales does not include leap seconds,
             // we always convert the time scale with leap seconds into the
             // time scale that does NOT have leap seconds.
             if self.time_scale.uses_leap_seconds() != other.time_scale.uses_leap_seconds() {
                 if self.time_scale.uses_leap_seconds() {
-                    self.to_time_scale(other.time_scale).duration == other.duration
+                    self.to_time_scale(other.time_scale)
+                        .duration
+                        .cmp(&other.duration)
+                        == Ordering::Equal
                 } else {
-                    self.duration == other.to_time_scale(self.time_scale).duration
+                    self.duration
+                        .cmp(&other.to_time_scale(self.time_scale).duration)
+                        == Ordering::Equal
                 }
             } else {
                 // Otherwise it does not matter
-                self.duration == other.to_time_scale(self.time_scale).duration
+                self.duration
+                    .cmp(&other.to_time_scale(self.time_scale).duration)
+                    == Ordering::Equal
             }
         }
     }
